@@ -48,6 +48,8 @@ func main() {
 	}
 }
 
+var excludeFiles = map[string]bool{}
+
 func loadProgram(dir, pkgPat, goos string, overlayDirs []string, tags string) (*ssa.Program, *ssa.Package, string, []string, error) {
 	overlay := map[string][]byte{}
 	var injected []string
@@ -59,7 +61,7 @@ func loadProgram(dir, pkgPat, goos string, overlayDirs []string, tags string) (*
 			return nil, nil, "", nil, err
 		}
 		for _, e := range ents {
-			if e.IsDir() || !strings.HasSuffix(e.Name(), ".go") {
+			if e.IsDir() || !strings.HasSuffix(e.Name(), ".go") || excludeFiles[e.Name()] {
 				continue
 			}
 			b, err := os.ReadFile(filepath.Join(od, e.Name()))
@@ -135,8 +137,13 @@ func cmdRun(argv []string) int {
 	tags := fs.String("tags", "", "build tags")
 	maxFail := fs.Int("maxfail", 5, "stop after this many failing paths per harness")
 	cpuprof := fs.String("cpuprofile", "", "write CPU profile")
+	var excl multiFlag
+	fs.Var(&excl, "exclude", "harness file name to leave out of the overlay (repeatable)")
 	deadline := fs.Int("deadline", 0, "stop exploring a harness after this many seconds (outcome: budget)")
 	fs.Parse(argv)
+	for _, e := range excl {
+		excludeFiles[e] = true
+	}
 	if *cpuprof != "" {
 		f, _ := os.Create(*cpuprof)
 		pprof.StartCPUProfile(f)
